@@ -12,7 +12,7 @@ use crate::io::port::{Exhausted, PortState, ReadStep, TestPort, WriteStep};
 use crate::oracle::hex::ref_encode;
 use crate::props::c01::{addr_strategy, byte_strategy, FrameCase};
 
-pub const RULE: &str = "read: streams of 1..5 lines (valid frames, deliberately invalid lines; CRLF, bare LF or - for the last - no terminator) followed by 0..20 arbitrary trailing bytes (frames of 0..19 data bytes mostly, 127/254/255 at a lower rate, plus a sweep of three back-to-back frames of every data length 0..=255), served by an instrumented reader that fragments the stream (every composition of the shortest stream of 14 bytes exhaustively, generated fragmentations beyond), injects ErrorKind::Interrupted at generated call indices, a hard error (Other/TimedOut/WouldBlock/UnexpectedEof) at every call index in turn, and early EOF or a timeout when the stream ends; Frame::read is called until the stream is used up and each call must consume exactly up to and including the next line feed (cursor measured inside the reader) and return what decoding that line returns; a hard error must surface as FrameError::Io. write: frames written to an instrumented sink that accepts 1..k bytes per call, reports Interrupted, Ok(0) or a hard error at generated / every call index: success must deliver exactly the CRLF encoding, failure a prefix and FrameError::Io. Non-trivial = a stream with >= 2 lines and a non-trivial fragmentation, or any injected fault; distinct by hash of the case";
+pub const RULE: &str = "read: streams of 1..5 lines (valid frames, deliberately invalid lines, valid frames with junk before/after them or a second frame on the same line; CRLF, bare LF or - for the last - no terminator) followed by 0..20 arbitrary trailing bytes (frames of 0..19 data bytes mostly, 127/254/255 at a lower rate, plus a sweep of three back-to-back frames of every data length 0..=255), served by an instrumented reader that fragments the stream (every composition of the shortest stream of 14 bytes exhaustively, generated fragmentations beyond), injects ErrorKind::Interrupted at generated call indices, a hard error (Other/TimedOut/WouldBlock/UnexpectedEof) at every call index in turn, and early EOF or a timeout when the stream ends; Frame::read is called until the stream is used up and each call must consume exactly up to and including the next line feed (cursor measured inside the reader) and return what decoding that line returns; a hard error must surface as FrameError::Io. write: frames written to an instrumented sink (implementing only write(), or its own gathering write_vectored) that accepts 1..k bytes per call, reports Interrupted, Ok(0) or a hard error at generated / every call index: success must deliver exactly the CRLF encoding, failure a prefix and FrameError::Io. Non-trivial = a stream with >= 2 lines and a non-trivial fragmentation, or any injected fault; distinct by hash of the case";
 pub const ASSUMPTIONS: &[&str] = &[
     "\"decoding that line\" is Frame::from_bytes on the bytes the reader handed out (the decoder itself is C03's subject)",
     "verdicts are derived from the calls the implementation actually made (recorded by the reader/sink), not from a predicted call pattern",
@@ -193,6 +193,9 @@ pub enum WStep {
 pub struct WriteCase {
     pub frame: FrameCase,
     pub script: Vec<WStep>,
+    /// the sink implements write_vectored and gathers across slices (false: only write())
+    #[serde(default)]
+    pub gather: bool,
 }
 
 pub fn check_write(c: &WriteCase, st: &mut Stats) -> Result<(), String> {
@@ -211,6 +214,7 @@ pub fn check_write(c: &WriteCase, st: &mut Stats) -> Result<(), String> {
         })
         .collect();
     state.call_cap = 20_000;
+    state.gather = c.gather;
     let mut port = TestPort::with_state(state);
     let h = port.handle();
     let frame = Frame::new(Address(c.frame.addr), MsgType(c.frame.ty), Data::try_new(c.frame.data.clone()).unwrap());
@@ -267,8 +271,13 @@ fn line_strategy() -> impl Strategy<Value = Vec<u8>> {
         let len = prop_oneof![10 => 0usize..20, 1 => proptest::sample::select(vec![127usize, 254, 255])];
         (addr_strategy(), byte_strategy(), len.prop_flat_map(|n| proptest::collection::vec(byte_strategy(), n))).prop_map(|(a, t, d)| ref_encode(a, t, &d))
     };
+    let junk = || proptest::collection::vec(prop_oneof![3 => any::<u8>().prop_filter("no LF", |b| *b != b'\n'), 1 => Just(0u8), 1 => Just(b' '), 1 => Just(b':')], 1..4);
     prop_oneof![
         8 => valid(),
+        // a complete valid frame with something else on the same line: before it, after it, or a second frame
+        1 => (junk(), valid()).prop_map(|(mut j, v)| { j.extend_from_slice(&v); j }),
+        1 => (valid(), junk()).prop_map(|(mut v, j)| { v.extend_from_slice(&j); v }),
+        1 => (valid(), valid()).prop_map(|(mut a, b)| { a.extend_from_slice(&b); a }),
         1 => valid().prop_map(|mut v| { let n = v.len(); v[n - 1] = if v[n - 1] == b'0' { b'1' } else { b'0' }; v }), // bad checksum
         1 => valid().prop_map(|mut v| { v.pop(); v }),                                          // odd digit count
         1 => proptest::collection::vec(any::<u8>().prop_filter("no LF", |b| *b != b'\n'), 0..12),
@@ -334,8 +343,9 @@ fn write_case_strategy() -> impl Strategy<Value = WriteCase> {
         (addr_strategy(), byte_strategy(), prop_oneof![4 => proptest::collection::vec(byte_strategy(), 0..20), 1 => proptest::collection::vec(byte_strategy(), 200..=255)]),
         proptest::collection::vec(step, 0..80),
         prop_oneof![2 => Just(None), 1 => (any::<u16>(), prop_oneof![1 => Just(WStep::Zero), 3 => iokind_strategy().prop_map(WStep::Error)]).prop_map(Some)],
+        prop_oneof![2 => Just(false), 1 => Just(true)],
     )
-        .prop_map(|((addr, ty, data), mut script, hard)| {
+        .prop_map(|((addr, ty, data), mut script, hard, gather)| {
             if let Some((sel, step)) = hard {
                 let at = crate::engine::pick_idx(sel, 40);
                 while script.len() <= at {
@@ -343,7 +353,7 @@ fn write_case_strategy() -> impl Strategy<Value = WriteCase> {
                 }
                 script[at] = step;
             }
-            WriteCase { frame: FrameCase { addr, ty, data }, script }
+            WriteCase { frame: FrameCase { addr, ty, data }, script, gather }
         })
 }
 
@@ -404,13 +414,29 @@ pub fn run(ctx: &Ctx) {
             for bad in [WStep::Zero, WStep::Error(IoKind::Other), WStep::Error(IoKind::BrokenPipe), WStep::Error(IoKind::TimedOut), WStep::Interrupted] {
                 let mut script = vec![WStep::Accept(accept); at as usize];
                 script.push(bad);
-                let c = WriteCase { frame: wframe.clone(), script };
-                check_write(&c, st).map_err(|m| (serde_json::to_value(&c).unwrap(), m))?;
+                for gather in [false, true] {
+                    let c = WriteCase { frame: wframe.clone(), script: script.clone(), gather };
+                    check_write(&c, st).map_err(|m| (serde_json::to_value(&c).unwrap(), m))?;
+                }
             }
         }
         st.nontrivial_enumerated(20);
         Ok(())
     });
+    // write: a sink that takes a constant k bytes per call (k = 1..=24, and everything), plain and gathering, for frames of
+    // every data length 0..=40 (odd and even line lengths meet every k at the line/terminator boundary)
+    par_range(ctx, "write-constant-chunk-sinks", 41, |len, st| {
+        let frame = FrameCase { addr: 0x0A0B, ty: 3, data: (0..len as u8).map(|i| i.wrapping_mul(37)).collect() };
+        for k in (1usize..=24).chain([1000]) {
+            for gather in [false, true] {
+                let c = WriteCase { frame: frame.clone(), script: vec![WStep::Accept(k); 400], gather };
+                check_write(&c, st).map_err(|m| (serde_json::to_value(&c).unwrap(), m))?;
+            }
+        }
+        st.nontrivial_enumerated(50);
+        Ok(())
+    });
+    ctx.part_done("write-constant-chunk-sinks", true, json!("frames of 0..=40 data bytes x sinks taking 1..=24 bytes (or everything) per call x {write() only, gathering write_vectored}"));
     ctx.part_done("write-fault-at-every-call", true, json!("sink accepting 1/2/7/all bytes per call with Ok(0), 3 hard errors or Interrupted at every call index 0..48"));
 
     // back-to-back frames of every data length 0..=255 (CRLF and bare LF), read in 7-byte and 1-byte fragments
